@@ -5,7 +5,8 @@
 From Coq Require Import ZArith NArith Reals List String Bool.
 From Flocq Require Import Core BinarySingleNaN.
 From SV Require Import Num.Mod360 Num.Mod360Proofs Num.AngleSites Num.AngleSitesProofs
-                       Num.Dec6 Num.Dec6Proofs Num.Dec6CarveProofs Num.VecText Num.VecTextProofs Num.Mod360Id Num.VecTextFloat SM.FrozenOps SM.FrozenOpsProofs SM.FrozenCopy SM.FrozenCopyProofs.
+                       Num.Dec6 Num.Dec6Proofs Num.Dec6CarveProofs Num.VecText Num.VecTextProofs Num.Mod360Id Num.VecTextFloat SM.FrozenOps SM.FrozenOpsProofs SM.FrozenCopy SM.FrozenCopyProofs
+                       SM.FrozenCopyValue SM.FrozenCopyValueProofs Num.AngleText Num.AngleTextProofs.
 Import ListNotations.
 
 (** ------------------------------------------------------------------ (a) range *)
@@ -93,6 +94,37 @@ Theorem c05_copy_alias_refuted :
   table_ok imul_table no_carve = true /\ dst = 0%nat /\
   nth_error (FrozenOps.run nat imul_table [({| meth := "__imul__"; recv := dst; args := [] |}, fun _ => 7%nat, [])] st') 0%nat = Some ("Angle"%string, 7%nat).
 Proof. exact copy_alias_refuted. Qed.
+
+(** The VALUE of a copy.  [copy_shapes] (generated: each of copy / __copy__ / __deepcopy__ / __reduce__ / freeze /
+    thaw of the six classes run symbolically on a source whose slots hold floats) lists which source slot reaches
+    which result slot through which conversion.  For every table that passes [copy_shapes_ok]: the result has the class
+    the method promises; a new Vec/FrozenVec/Matrix/FrozenMatrix has in every slot exactly the value of the same slot
+    of the source (whatever the values are, any value type) ... *)
+Theorem c05_copy_result_class : forall l, copy_shapes_ok l = true ->
+  forall c m rc sh, In (c, m, rc, sh) l -> rc = result_class c m.
+Proof. exact copy_result_class. Qed.
+
+Theorem c05_copy_value_equal_exact : forall l, copy_shapes_ok l = true ->
+  forall c m rc t, In (c, m, rc, CSlots t) l -> angle_family rc = false ->
+  forall (V : Type) (norm : V -> V) (dflt : V) (src : string -> V) s, In s (slots_of rc) -> built V norm dflt t src s = src s.
+Proof. exact copy_value_equal_exact. Qed.
+
+(** ... and a new Angle/FrozenAngle built from a source that satisfies the range invariant (c05_angle_range_invariant)
+    has in every slot a finite double with the same real value, again in [0, 360): the constructor's and the property
+    setters' [% 360 % 360] is the identity there (c05_double360_id).  Composes (a) with (b): "a copy is equal to its
+    source" for Angle.copy() / pickle needs the range invariant of the source. *)
+Theorem c05_copy_value_equal_angles : forall l, copy_shapes_ok l = true ->
+  forall c m rc t, In (c, m, rc, CSlots t) l -> angle_family rc = true ->
+  forall src : string -> b64, (forall s, In s (slots_of rc) -> in_range (src s)) ->
+  forall s, In s (slots_of rc) ->
+    same64 (built b64 double360 (B754_zero false) t src s) (src s) /\ in_range (built b64 double360 (B754_zero false) t src s).
+Proof. exact copy_value_equal_angles. Qed.
+
+(** necessary: a copy() that swaps two slots fails the check and the built object differs *)
+Theorem c05_copy_value_refuted :
+  copy_shapes_ok [("Vec"%string, "copy"%string, "Vec"%string, CSlots swapped)] = false /\
+  built nat (fun v => v) 0%nat swapped (fun s => if String.eqb s "_y" then 1%nat else if String.eqb s "_z" then 2%nat else 0%nat) "_y"%string = 2%nat.
+Proof. exact copy_value_refuted. Qed.
 
 (** ------------------------------------------------------------------ (c) text *)
 
@@ -233,3 +265,67 @@ Proof. exact float_parse_error. Qed.
 Theorem c05_float_parse_exact : forall d x, dec_R d = dy_R x ->
   generic_format radix2 (FLT_exp (-1074) 53) (dy_R x) -> py_float d = dy_R x.
 Proof. exact float_parse_exact. Qed.
+
+(** ------------------------------------------------------------------ (a)+(c) composed: str(angle) -> from_str *)
+
+(** Python's [% 360.0] on a finite value in [360, 720) is the exact subtraction of 360 (no rounding, no sign repair):
+    what happens to a component that was printed as "360" / "360.000000" and read back *)
+Theorem c05_double360_sub : forall x : b64, is_finite x = true -> (360 <= B2R x < 720)%R ->
+  B2R (double360 x) = (B2R x - 360)%R /\ is_finite (double360 x) = true.
+Proof. exact double360_sub. Qed.
+
+(** ONE COMPONENT through the whole chain.  [x] is a slot that satisfies the range invariant (c05_angle_range_invariant);
+    [d] the decimal that the reader decodes from format_float's text of it; [f] the double float() returns for [d]
+    (correctly rounded, [py_float]).  Then the slot the constructor stores, [f % 360.0 % 360.0], is again in [0, 360)
+    and is within 5e-7 + ulp/2 of [x] either directly or after the wrap-around 360 -> 0 (distance on the circle). *)
+Theorem c05_angle_component_roundtrip : forall c (x f : b64) d,
+  in_range x -> parse_decimal (format6 c (dy_of x)) = Some d ->
+  is_finite f = true -> B2R f = py_float d ->
+  in_range (double360 f) /\
+  (Rabs (B2R (double360 f) - B2R x) <= 5 / 10000000 + / 2 * ulp radix2 (FLT_exp (-1074) 53) (dec_R d) \/
+   Rabs (B2R (double360 f) + 360 - B2R x) <= 5 / 10000000 + / 2 * ulp radix2 (FLT_exp (-1074) 53) (dec_R d))%R.
+Proof. exact angle_component_roundtrip. Qed.
+
+(** THE WHOLE ANGLE: Angle.from_str / FrozenAngle.from_str applied to the text of an angle whose slots are in range, in
+    any bracket style of the source's sets with any whitespace: parse_vec_str (pipeline read from the source) returns
+    three decimal fields, and for whatever finite doubles float() returns for them (correctly rounded) each stored slot
+    is in [0, 360) and within 5e-7 + ulp/2 of the printed slot modulo 360.  Composes c05_angle_range_invariant (premise),
+    c05_parse_format_vec, c05_float_parse_error, c05_double360_id and c05_double360_sub. *)
+Theorem c05_angle_text_roundtrip : forall pc c (p y r : b64) ws1 ob wa s1 s2 wb cb ws2,
+  pcfg_ok pc = true ->
+  all_space ws1 -> all_space wa -> all_space wb -> all_space ws2 ->
+  all_space s1 -> s1 <> [] -> all_space s2 -> s2 <> [] ->
+  opt_bracket (opens pc) ob -> opt_bracket (closes pc) cb ->
+  in_range p -> in_range y -> in_range r ->
+  exists d1 d2 d3,
+    parse_vec pc (ws1 ++ ob ++ wa ++ format6 c (dy_of p) ++ s1 ++ format6 c (dy_of y) ++ s2 ++ format6 c (dy_of r) ++ wb ++ cb ++ ws2)
+      = PFields (Some d1) (Some d2) (Some d3) /\
+    forall d x, In (d, x) [(d1, p); (d2, y); (d3, r)] ->
+    forall f : b64, is_finite f = true -> B2R f = py_float d ->
+      in_range (double360 f) /\
+      (Rabs (B2R (double360 f) - B2R x) <= 5 / 10000000 + / 2 * ulp radix2 (FLT_exp (-1074) 53) (dec_R d) \/
+       Rabs (B2R (double360 f) + 360 - B2R x) <= 5 / 10000000 + / 2 * ulp radix2 (FLT_exp (-1074) 53) (dec_R d))%R.
+Proof. exact angle_text_roundtrip. Qed.
+
+(** the dyadic given to format6 and the binary64 given to double360 are the same reading of a Python float (the
+    (sign, mantissa, exponent) triple of the bit-exact correspondences) *)
+Theorem c05_dy_of_show : forall x : b64, is_finite x = true ->
+  show x = ((if dneg (dy_of x) then 1 else 0)%Z, Z.of_N (dm (dy_of x)), de (dy_of x)).
+Proof. exact dy_of_show. Qed.
+
+(** THE WHOLE VECTOR: Vec.from_str / FrozenVec.from_str applied to the text of a vector with finite components (the
+    carved-out "-0" included), any bracket style: three decimal fields, and the double float() returns for each
+    (correctly rounded) is within 5e-7 + ulp/2 of the component that was printed.  The constructor stores float(x)
+    unchanged, so this is the value of the new vector. *)
+Theorem c05_vec_text_roundtrip : forall pc c (x y z : b64) ws1 ob wa s1 s2 wb cb ws2,
+  pcfg_ok pc = true ->
+  all_space ws1 -> all_space wa -> all_space wb -> all_space ws2 ->
+  all_space s1 -> s1 <> [] -> all_space s2 -> s2 <> [] ->
+  opt_bracket (opens pc) ob -> opt_bracket (closes pc) cb ->
+  is_finite x = true -> is_finite y = true -> is_finite z = true ->
+  exists d1 d2 d3,
+    parse_vec pc (ws1 ++ ob ++ wa ++ format6 c (dy_of x) ++ s1 ++ format6 c (dy_of y) ++ s2 ++ format6 c (dy_of z) ++ wb ++ cb ++ ws2)
+      = PFields (Some d1) (Some d2) (Some d3) /\
+    forall d v, In (d, v) [(d1, x); (d2, y); (d3, z)] ->
+      (Rabs (py_float d - B2R v) <= 5 / 10000000 + / 2 * ulp radix2 (FLT_exp (-1074) 53) (dec_R d))%R.
+Proof. exact vec_text_roundtrip. Qed.
